@@ -351,7 +351,11 @@ func (r *snapRun) apply(op hOp) bool {
 		if op.K == opReap {
 			if _, isAlive := r.alive[name]; isAlive {
 				// Serf only reaps failed/left members; keep the history realistic
-				return r.send(serf.MemberEvent{Type: serf.EventMemberUpdate, Members: []serf.Member{{Name: name}}})
+				ok := r.send(serf.MemberEvent{Type: serf.EventMemberUpdate, Members: []serf.Member{{Name: name}}})
+				if recording {
+					r.noteClock()
+				}
+				return ok
 			}
 		}
 		typ := serf.EventMemberUpdate
